@@ -96,6 +96,13 @@ def build_pool(ctx, n_real, n_synth):
                       ('xver-22039', [22039, 12001])]:
         for v in (13, 33, 19):
             damaged.append({'id': 'r:%s-v%d' % (name, v), 'hex': O.mk_message(ids, 64, v, pattern=True).hex(), 'kind': 'register'})
+    # the SAME descriptor list under the SAME master tables but different LOCAL tables (centre 98, local table
+    # versions 1/2/3/101 and none), over local descriptors defined differently in them
+    for name, ids in [('xloc-8201', [1001, 8201, 1002, 12101]), ('xloc-1211-2201', [1211, 2201, 12001]),
+                      ('xloc-33194', [1001, 33194, 33195, 12001]), ('xloc-5234', [5234, 5236, 1001])]:
+        for ltv in (1, 2, 3, 101, 0):
+            damaged.append({'id': 'r:%s-l%d' % (name, ltv), 'hex': O.mk_message(ids, 64, 25, 98, 0, ltv, pattern=True).hex(),
+                            'kind': 'register'})
     # synthetic messages: version x local table x template
     synth = []
     versions = sorted(int(os.path.basename(p)) for p in glob.glob(os.path.join(lib.REPO, 'pybufrkit', 'tables', '0', '0_0', '*'))
@@ -148,7 +155,21 @@ def gen_history(rng, item_ids, n_ops, limit, refs):
         it = rng.choice(item_ids)
         slot = rng.randrange(len(CACHE_MAXES))
         pairs = [(a, a[:-1] + 'b') for a in item_ids if a.startswith('r:') and a.endswith('-a') and a[:-1] + 'b' in item_ids]
-        if r < 0.12 and pairs:
+        fams = {}
+        for a in item_ids:
+            if a.startswith('r:xver-') or a.startswith('r:xloc-'):
+                fams.setdefault(a.rsplit('-', 1)[0], []).append(a)
+        fams = [v for v in fams.values() if len(v) >= 2]
+        if r < 0.10 and fams:
+            # the same descriptor list under different table groups, on the SAME coder object (a compiled template
+            # or any other per-coder cache keyed too coarsely would carry one group's widths into the other)
+            a, b = rng.sample(rng.choice(fams), 2)
+            same = rng.randrange(len(CACHE_MAXES))
+            ops.append({'op': 'decode', 'item': a, 'slot': same})
+            ops.append({'op': 'decode+observe', 'item': b, 'slot': same, 'seq': [rng.choice(['values', 'nested', 'flat'])]})
+            ops.append({'op': 'encode', 'item': a, 'slot': same, 'eslot': same})
+            ops.append({'op': 'encode', 'item': b, 'slot': same, 'eslot': same})
+        elif r < 0.20 and pairs:
             # two messages of the SAME table group differing in one descriptor, back to back (either
             # order): what a shared cached descriptor object would leak from one into the other
             a, b = rng.choice(pairs)
